@@ -42,6 +42,9 @@ func (s *Store[H]) OnDelete(fn func(context.Context, uint64) error) {
 var (
 	deleteRangeParallelThreshold uint64 = 10000
 	errDeleteTimeout                    = errors.New("delete timeout")
+	// errHeaderMissing says that there is no header at the height to delete, which is skipped,
+	// as opposed to an OnDelete handler failing with a not-found error of its own
+	errHeaderMissing = errors.New("header is missing")
 )
 
 // deleteSingle deletes a single header from the store,
@@ -57,6 +60,9 @@ func (s *Store[H]) deleteSingle(
 	}
 
 	hash, err := s.heightIndex.HashByHeight(ctx, height, false)
+	if errors.Is(err, datastore.ErrNotFound) {
+		return nil, errHeaderMissing
+	}
 	if err != nil {
 		return nil, fmt.Errorf("hash by height %d: %w", height, err)
 	}
@@ -157,7 +163,7 @@ func (s *Store[H]) deleteSequential(
 
 	for height := from; height < to; height++ {
 		hash, err := s.deleteSingle(ctx, height, onDelete)
-		if errors.Is(err, datastore.ErrNotFound) {
+		if errors.Is(err, errHeaderMissing) {
 			missing++
 			log.Debugw("attempt to delete header that's not found", "height", height)
 		} else if err != nil {
@@ -228,7 +234,7 @@ func (s *Store[H]) deleteParallel(ctx context.Context, from, to uint64) (uint64,
 			last.height = height
 			var hash header.Hash
 			hash, last.err = s.deleteSingle(workerCtx, height, onDelete)
-			if errors.Is(last.err, datastore.ErrNotFound) {
+			if errors.Is(last.err, errHeaderMissing) {
 				last.missing++
 				// a missing header is not a failure of this worker
 				last.err = nil
